@@ -39,11 +39,11 @@ Definition chk_seq (c : seq_case) : bool :=
   let '(st, e) := run bk init evs in
   list_eqb pz_eqb (out st) iout && list_eqb poll_eqb (polls st) ipolls && opt_eqb err_eqb e ierr &&
   (if tuner then run_disc bk init evs else true).
-(* script based SimulatorBackend: events with ResumeScript (the model slices std.out itself) *)
-Definition s_case := (list sev * list (list (nat * Z) * list (nat * status)))%type.
+(* script based SimulatorBackend: raw operations, resumed job = what this run of the script wrote *)
+Definition s_case := (list ev * list (list (nat * Z) * list (nat * status)))%type.
 Definition chk_s (c : s_case) : bool :=
   let '(evs, ipolls) := c in
-  let '(st, e) := srun init evs in
+  let '(st, e) := run Sim init evs in
   list_eqb poll_eqb (polls st) ipolls && opt_eqb err_eqb e None.
 (* tabular resume: checkpointing, paused level, table rows (level, payload), implementation rows *)
 Definition zz_eqb (a b : Z * Z) : bool := Z.eqb (fst a) (fst b) && Z.eqb (snd a) (snd b).
@@ -735,7 +735,7 @@ for epoch in range(start + 1, a.epochs + 1):
 """
 
 SIG_SIM_SLICE = {"backend": "SimulatorBackend._run_job_and_collect_results",
-                 "event": "resumed_job_replays_results_that_arrived_before_the_resume"}
+                 "event": "resumed_job_delivers_results_of_a_previous_run"}
 
 
 def gen_simscript_case(rng):
@@ -748,7 +748,7 @@ def gen_simscript_case(rng):
         k = rng.choice(["adv"] * 4 + ["fetch"] * 4 + ["pause"] * 2 + ["stop", "resume", "resume", "start"])
         if k == "start" or not state:
             if started < ntr and nstarts < 4:
-                ops.append(["start", rng.randint(3, 6), 1])
+                ops.append(["start", rng.randint(3, 6), rng.randint(0, 1)])
                 state[started] = "run"
                 started += 1
                 nstarts += 1
@@ -804,10 +804,10 @@ def run_simscript(case, tmp):
                         continue
                     n, st = after[tid]
                     if n > cnt.get(tid, 0):
-                        evs.append("E (W (Emit %s %s))" % (natlit(tid), natlit(n - cnt.get(tid, 0))))
+                        evs.append("W (Emit %s %s)" % (natlit(tid), natlit(n - cnt.get(tid, 0))))
                         cnt[tid] = n
                     if st == "Completed" and stat.get(tid) != "Completed":
-                        evs.append("E (W (Finish %s))" % natlit(tid))
+                        evs.append("W (Finish %s)" % natlit(tid))
                     stat[tid] = st
                 return after
 
@@ -830,12 +830,12 @@ def run_simscript(case, tmp):
                     world()
                     conf[tid] = (op[1], op[2])
                     pred[tid] = script_lines(tid)
-                    evs.append("E (Start %s)" % reps_t([(0, v) for v in pred[tid]]))
+                    evs.append("Start %s" % reps_t([(0, v) for v in pred[tid]]))
                     timeline.append(("start", tid))
                 elif op[0] == "fetch":
                     st, res = b.fetch_status_results(list(op[1]))
                     world()
-                    evs.append("E (Fetch %s)" % lst([natlit(i) for i in op[1]]))
+                    evs.append("Fetch %s" % lst([natlit(i) for i in op[1]]))
                     polls.append(([(i, r["v"]) for i, r in res], [(i, st[i][1]) for i in op[1]]))
                     for i, r in res:
                         timeline.append(("result", i, r["v"]))
@@ -844,7 +844,7 @@ def run_simscript(case, tmp):
                     (b.pause_trial if op[0] == "pause" else b.stop_trial)(tid, None)
                     after = snap()
                     n = after.get(tid, (0, None))[0]
-                    evs.append("E (%s %s %s)" % ("PauseT" if op[0] == "pause" else "StopT", natlit(tid), natlit(n - cnt.get(tid, 0))))
+                    evs.append("%s %s %s" % ("PauseT" if op[0] == "pause" else "StopT", natlit(tid), natlit(n - cnt.get(tid, 0))))
                     cnt[tid] = n
                     stat[tid] = after.get(tid, (0, "InProgress"))[1]
                     timeline.append((op[0], tid))
@@ -853,8 +853,9 @@ def run_simscript(case, tmp):
                     b.resume_trial(tid)
                     world()
                     arrived_at_resume.setdefault(tid, []).append(cnt.get(tid, 0))
-                    pred[tid] = pred[tid] + script_lines(tid)
-                    evs.append("ResumeScript %s %s" % (natlit(tid), reps_t([(0, v) for v in pred[tid]])))
+                    new_lines = script_lines(tid)
+                    pred[tid] = pred[tid] + new_lines
+                    evs.append("Resume %s %s" % (natlit(tid), reps_t([(0, v) for v in new_lines])))
                     timeline.append(("resume", tid, cnt.get(tid, 0)))
             from syne_tune.report import retrieve
             real = {tid: [r["v"] for r in retrieve(b.stdout(tid))] for tid in b.trial_ids if os.path.exists(b.trial_path(tid) / "std.out")}
@@ -864,29 +865,31 @@ def run_simscript(case, tmp):
 
 
 def check_simscript(obs):
-    """model-free: nothing twice, in std.out order, nothing that arrived before a resume after it,
-    nothing while the trial is paused/stopped"""
+    """model-free: a delivered result belongs to the CURRENT run of its trial (nothing a paused/stopped run
+    wrote is delivered after a resume), in the order the run wrote them, nothing twice, nothing while the
+    trial is paused/stopped"""
     bad = []
     pos = {tid: {v: k for k, v in enumerate(lines)} for tid, lines in obs["real"].items()}
-    last, floor, off, seen_v = {}, {}, {}, set()
+    last, run_no, off, seen_v = {}, {}, {}, set()
     for ev in obs["timeline"]:
-        if ev[0] in ("pause", "stop"):
+        if ev[0] == "start":
+            run_no[ev[1]] = 0
+        elif ev[0] in ("pause", "stop"):
             off[ev[1]] = ev[0]
         elif ev[0] == "resume":
             off[ev[1]] = None
-            floor[ev[1]] = ev[2]
+            run_no[ev[1]] += 1
         elif ev[0] == "result":
             _, tid, v = ev
             k = pos.get(tid, {}).get(v)
             if off.get(tid):
                 bad.append(("delivered_while_%s" % off[tid], dict(trial=tid, payload=v)))
             if (tid, v) in seen_v:
-                bad.append(("SLICE", dict(trial=tid, payload=v, why="delivered twice")))
+                bad.append(("delivered_twice", dict(trial=tid, payload=v)))
             elif k is None:
                 bad.append(("delivered_result_not_in_stdout", dict(trial=tid, payload=v)))
-            elif k < floor.get(tid, 0):
-                bad.append(("SLICE", dict(trial=tid, payload=v, why="arrived (delivered or dropped) before the resume, delivered after it",
-                                          position=k, arrived_at_resume=floor[tid])))
+            elif (v // 100) % 100 != run_no[tid]:
+                bad.append(("SLICE", dict(trial=tid, payload=v, why="was written by run %d of the trial, delivered during run %d (after the resume)" % ((v // 100) % 100, run_no[tid]))))
             elif k <= last.get(tid, -1):
                 bad.append(("delivered_out_of_order", dict(trial=tid, payload=v)))
             seen_v.add((tid, v))
@@ -896,10 +899,12 @@ def check_simscript(obs):
 
 
 SIMSCRIPT_DIRECTED = [
-    # a poll that does not cover the reporting trial (epochs 1, 2 dropped but counted), then epoch 3 delivered,
-    # pause, resume, polls to the end. The script checkpoints (as the script based simulator expects: it ran to
-    # completion, the resumed job writes nothing new), so the resumed job's results are the rest of std.out.
-    # (A script without checkpointing would make the slice mix elapsed times of two runs: not generated.)
+    # F-C02-3: the script (no checkpointing) writes epochs 1..4 at elapsed 1..4; epoch 1 delivered, pause, resume:
+    # the events of epochs 2..4 of the paused run were removed and never arrived; they must not come back
+    dict(kind="simscript", delays=[0, 0, 0, 0, 0],
+         ops=[["start", 4, 0], ["adv", 1.5], ["fetch", [0]], ["pause", 0], ["resume", 0], ["adv", 20.0], ["fetch", [0]]]),
+    # a poll that does not cover the reporting trial (epochs 1, 2 dropped), epoch 3 delivered, pause, resume of a
+    # script that checkpoints (it ran to the end: the resumed job writes nothing), polls to the end
     dict(kind="simscript", delays=[0, 0, 0, 0, 0],
          ops=[["start", 6, 1], ["adv", 2.5], ["fetch", []], ["adv", 1.0], ["fetch", [0]], ["pause", 0], ["resume", 0],
               ["adv", 9.0], ["fetch", [0]]]),
@@ -913,7 +918,7 @@ def simscript_cases(ctx, replay, tmp):
             return
         cases = [replay]
     else:
-        cases, starts, budget = list(SIMSCRIPT_DIRECTED), 2, ctx.n(14, 160)
+        cases, starts, budget = list(SIMSCRIPT_DIRECTED), 4, ctx.n(16, 160)
         while starts < budget:
             c = gen_simscript_case(rng)
             starts += sum(1 for o in c["ops"] if o[0] in ("start", "resume"))
@@ -947,13 +952,31 @@ def simscript_cases(ctx, replay, tmp):
     if terms:
         for i in ctx.coq_bad_cases("simscript", IMPORTS, PRELUDE, "chk_s", terms, shard=60):
             ctx.violation("correspondence", "model Fetch.v (Sim, script based resume slice) differs from the real SimulatorBackend", case=meta[i],
-                          failing_input=False, broken="correspondence chk_s (model/Fetch.v sstep / fetch_sim / take_nrf)")
+                          failing_input=False, broken="correspondence chk_s (model/Fetch.v Sim: Resume / fetch_sim / take_nrf)")
 
 
 # ----------------------------------------------------------------------------------------------
 # D. tabular simulator: which results a resumed job replays
 # ----------------------------------------------------------------------------------------------
-def tabular_cases(ctx, replay):
+def gen_times(rng, n):
+    """cumulative time column of a benchmark table as a noisy / surrogate-predicted one looks: increasing on the
+    whole, with ties, steps below 0.01, and dips below an earlier value over 1, 2 or 3 consecutive levels"""
+    t, out = 0.0, []
+    for _ in range(n):
+        t += rng.choice([0.5, 1.0, 1.0, 2.0, 0.004, 0.0])
+        out.append(t)
+    style = rng.choice(["plain", "dip1", "dip2", "dip3", "noise"])
+    if style.startswith("dip") and n >= 2:
+        k = int(style[3])
+        i = rng.randrange(1, n)
+        for j in range(i, min(n, i + k)):
+            out[j] = out[i - 1] * rng.choice([0.3, 0.5, 0.8]) + 0.125 * (j - i) * rng.choice([0, 1, -1])
+    elif style == "noise":
+        out = [max(0.0, x + rng.choice([-1.5, -0.75, 0.0, 0.0, 0.25])) for x in out]
+    return [float(x) for x in out], style
+
+
+def tab_imports():
     import sys
     import numpy as np
     # yahpo_gym is installed but does not import here (ConfigSpace binary vs numpy 2: ValueError, which
@@ -964,22 +987,135 @@ def tabular_cases(ctx, replay):
         import syne_tune.blackbox_repository  # noqa: F401
     from syne_tune.blackbox_repository.blackbox import Blackbox
     from syne_tune.blackbox_repository.simulated_tabular_backend import UserBlackboxBackend
-    from syne_tune.backend.trial_status import Trial
     from syne_tune.config_space import randint
-    import datetime
 
     class TableBlackbox(Blackbox):
-        def __init__(self, levels, values):
+        """one row per configuration x (0..9): objectives v = 1000 x + 100 + level, elapsed = times[x][level index]"""
+
+        def __init__(self, levels, times_per_cfg):
             super().__init__(configuration_space={"x": randint(0, 9)}, fidelity_space={"epoch": randint(1, 100)},
                              objectives_names=["v", "elapsed"])
-            self._levels, self._values = list(levels), values
+            self._levels, self._times = list(levels), times_per_cfg
 
         @property
         def fidelity_values(self):
             return np.array(self._levels)
 
         def _objective_function(self, configuration, fidelity=None, seed=None):
-            return np.array(self._values, dtype=float)
+            x = int(configuration["x"])
+            return np.array([[1000.0 * x + 100 + l, t] for l, t in zip(self._levels, self._times[x % len(self._times)])], dtype=float)
+
+    return TableBlackbox, UserBlackboxBackend
+
+
+def gen_tabsim_case(rng):
+    n = rng.randint(2, 7)
+    levels = list(range(1, n + 1))
+    ncfg = rng.randint(1, 3)
+    times = [gen_times(rng, n)[0] for _ in range(ncfg)]
+    if rng.random() < 0.5:
+        times[0] = gen_times(random.Random(rng.randrange(10 ** 6)), n)[0]
+    ops, started = [], 0
+    for _ in range(rng.randint(4, 14)):
+        k = rng.choice(["adv", "adv", "fetch", "fetch", "start"])
+        if k == "start" or not started:
+            if started < ncfg:
+                ops.append(["start", started])
+                started += 1
+        elif k == "adv":
+            ops.append(["adv", rng.choice([0.005, 0.02, 0.3, 1.0, 2.5])])
+        else:
+            ops.append(["fetch"])
+    ops += [["adv", 100.0], ["fetch"]]
+    return dict(kind="tabsim", levels=levels, times=times, delays=rng.choice([[0, 0, 0, 0, 0], [0.0, 0.05, 0.0, 0.05, 0.0]]), ops=ops)
+
+
+def run_tabsim(case):
+    """start / advance / poll on the real UserBlackboxBackend over a table whose time column has dips"""
+    from fetch_scripted import FakeTime
+    from syne_tune.backend.simulator_backend.simulator_backend import SimulatorConfig
+    TableBlackbox, UserBlackboxBackend = tab_imports()
+    d = case["delays"]
+    evs, polls, delivered, cnt, stat = [], [], {}, {}, {}
+    with quiet(), mock.patch("syne_tune.backend.simulator_backend.time_keeper.time", FakeTime()):
+        b = UserBlackboxBackend(blackbox=TableBlackbox(case["levels"], case["times"]), elapsed_time_attr="elapsed", seed=0,
+                                simulator_config=SimulatorConfig(delay_on_trial_result=d[0], delay_complete_after_final_report=d[1],
+                                                                 delay_complete_after_stop=d[2], delay_start=d[3], delay_stop=d[4]))
+        b.time_keeper.start_of_time()
+
+        def world():
+            for tr in b._all_trial_results(list(b.trial_ids)):
+                tid, n, st = tr.trial_id, len(tr.metrics), tr.status
+                if n > cnt.get(tid, 0):
+                    evs.append("W (Emit %s %s)" % (natlit(tid), natlit(n - cnt.get(tid, 0))))
+                    cnt[tid] = n
+                if st == "Completed" and stat.get(tid) != "Completed":
+                    evs.append("W (Finish %s)" % natlit(tid))
+                stat[tid] = st
+
+        for op in case["ops"]:
+            if op[0] == "adv":
+                b.time_keeper.advance(op[1])
+            elif op[0] == "start":
+                tid = len(b.trial_ids)
+                b.start_trial({"x": op[1]})
+                world()
+                evs.append("Start %s" % reps_t([(0, 1000 * op[1] + 100 + l) for l in case["levels"]]))
+                delivered[tid] = []
+            elif op[0] == "fetch":
+                ids = list(b.trial_ids)
+                st, res = b.fetch_status_results(ids)
+                world()
+                evs.append("Fetch %s" % lst([natlit(i) for i in ids]))
+                polls.append(([(i, int(r["v"])) for i, r in res], [(i, st[i][1]) for i in ids]))
+                for i, r in res:
+                    delivered[i].append(int(r["epoch"]))
+        final = {tid: stat.get(tid) for tid in delivered}
+    return dict(evs=evs, polls=polls, delivered=delivered, final=final)
+
+
+def tabsim_cases(ctx, replay):
+    rng = ctx.rng
+    if replay is not None:
+        if replay.get("kind") != "tabsim":
+            return
+        cases = [replay]
+    else:
+        cases = [dict(kind="tabsim", levels=[1, 2, 3, 4], times=[[1.0, 0.5, 0.8, 2.0]], delays=[0, 0, 0, 0, 0],
+                      ops=[["start", 0], ["adv", 0.9], ["fetch"], ["adv", 5.0], ["fetch"]])]
+        cases += [gen_tabsim_case(rng) for _ in range(ctx.n(150, 3000))]
+    terms, meta = [], []
+    for case in cases:
+        obs = run_tabsim(case)
+        dips = sum(1 for t in case["times"] for a, b in zip(t, t[1:]) if b <= a)
+        ctx.count(("tabsim", case), nontrivial=bool(dips >= 1 and sum(len(b) for b, _ in obs["polls"]) >= 2))
+        ctx.h("tabsim_time_dips", min(dips, 5))
+        ctx.traces_validated += 1
+        for tid, dl in obs["delivered"].items():
+            want = case["levels"][:len(dl)]
+            done = obs["final"].get(tid) == "Completed"
+            if dl != want or (done and dl != case["levels"]):
+                ctx.violation("property", "blackbox simulator: trial %d (time column %s) got the levels %s delivered, %s" % (
+                    tid, case["times"][tid % len(case["times"])], dl,
+                    "not a gap-free prefix in report order" if dl != want else "completed but not all of %s" % case["levels"]),
+                    case=dict(case, first_bad=dict(trial=tid, delivered=dl)),
+                    signature=dict(backend="_BlackboxSimulatorBackend", event="results_delivered_out_of_report_order" if dl != want else "completed_run_not_fully_delivered"))
+                break
+        terms.append("((%s, %s) : s_case)" % (
+            lst(["\n    " + e for e in obs["evs"]]),
+            lst(["(%s, %s)" % (lst(["(%s, %s)" % (natlit(i), zlit(v)) for i, v in b]),
+                               lst(["(%s, %s)" % (natlit(i), ST[s]) for i, s in sts])) for b, sts in obs["polls"]])))
+        meta.append(dict(case, impl_polls=obs["polls"]))
+    if terms:
+        for i in ctx.coq_bad_cases("tabsim", IMPORTS, PRELUDE, "chk_s", terms, shard=60):
+            ctx.violation("correspondence", "model Fetch.v (Sim) differs from the real UserBlackboxBackend on a start/advance/poll sequence",
+                          case=meta[i], failing_input=False, broken="correspondence chk_s (model/Fetch.v Sim: t_emit order / fetch_sim)")
+
+
+def tabular_cases(ctx, replay):
+    from syne_tune.backend.trial_status import Trial
+    import datetime
+    TableBlackbox, UserBlackboxBackend = tab_imports()
 
     rng = ctx.rng
     if replay is not None:
@@ -992,16 +1128,17 @@ def tabular_cases(ctx, replay):
             n = rng.randint(1, 8)
             levels = sorted(rng.sample(range(1, 20), n))
             paused = rng.choice([None, None] + levels + [0, 25]) if rng.random() < 0.9 else None
+            times, style = gen_times(rng, n)
             cases.append(dict(kind="tabular", levels=levels, paused=paused, ckpt=rng.random() < 0.7,
-                              with_result=rng.random() < 0.9))
+                              with_result=rng.random() < 0.9, times=times, style=style))
     terms, meta = [], []
     for case in cases:
         levels = case["levels"]
-        values = [[float(100 + l), 1.5 * (i + 1)] for i, l in enumerate(levels)]
+        times = case.get("times") or [1.5 * (i + 1) for i in range(len(levels))]
         with quiet():
-            be = UserBlackboxBackend(blackbox=TableBlackbox(levels, values), elapsed_time_attr="elapsed",
+            be = UserBlackboxBackend(blackbox=TableBlackbox(levels, [times]), elapsed_time_attr="elapsed",
                                      support_checkpointing=case["ckpt"], seed=0)
-            be._trial_dict[0] = Trial(trial_id=0, config={"x": 1}, creation_time=datetime.datetime(2020, 1, 1))
+            be._trial_dict[0] = Trial(trial_id=0, config={"x": 0}, creation_time=datetime.datetime(2020, 1, 1))
             be.trial_ids.append(0)
             paused = case["paused"]
             eff = None
@@ -1022,6 +1159,14 @@ def tabular_cases(ctx, replay):
         want = [r for r in allr if not (eff is not None and case["ckpt"]) or r[0] > eff]
         ctx.count(("tab", case), nontrivial=bool(eff is not None and case["ckpt"] and 0 < len(want) < len(allr)))
         ctx.h("tabular", "ckpt" if case["ckpt"] else "no_ckpt")
+        ctx.h("tabular_time_column", case.get("style", "plain"))
+        # the times handed to the simulator decide the order in which the results arrive: strictly increasing
+        el = [float(r["elapsed"]) for r in res]
+        if any(b <= a for a, b in zip(el, el[1:])) or (el and el[0] <= 0):
+            ctx.violation("property", "elapsed times %s handed to the simulator for the table column %s are not increasing: the results "
+                          "of the job arrive out of order" % (el, times), case=case,
+                          signature=dict(backend="_BlackboxSimulatorBackend._run_job_and_collect_results",
+                                         event="elapsed_times_not_increasing"))
         if impl != want:
             ctx.violation("property", "resumed tabular job replays %s, expected the levels above the paused level %s: %s" % (impl, eff, want),
                           case=case, signature=dict(backend="_BlackboxSimulatorBackend._run_job_and_collect_results",
@@ -1074,6 +1219,7 @@ def run(ctx, replay=None):
         tuner_cases(ctx, replay, sim=True)
         simscript_cases(ctx, replay, tmp)
         tabular_cases(ctx, replay)
+        tabsim_cases(ctx, replay)
     finally:
         if old is None:
             os.environ.pop("SYNETUNE_FOLDER", None)
